@@ -537,6 +537,7 @@ namespace sim
                 typename H::Plan plan = h.from_json(rf.at("plan"));
                 std::string expected = rf.get_str("violation_class", "");
                 install_crash_handlers();
+                h.post_install();
                 crash_state().phase = 2;
                 Log l;
                 l.keep_text = true;
@@ -569,6 +570,7 @@ namespace sim
                 return 0;
             }
             install_crash_handlers();
+            h.post_install();
             Worker<H> w(h);
             w.params = args.params;
             w.seed = args.seed;
@@ -612,6 +614,7 @@ namespace sim
     {
         void configure(const Params&) {}
         void startup_selftest() {}
+        void post_install() {} // called after the generic crash handlers are installed (a harness may put its own fault handler on top)
         void extra_report(json::Value&) {}
         uint64_t shrink_budget() const { return 3000; }
         template <class W>
